@@ -443,6 +443,18 @@ func (n *qNode) depth() int {
 	return d + 1
 }
 
+// mEmptyInterval reports whether a chained comparison (between) denotes no integer at all.
+func mEmptyInterval(x *qNode) bool {
+	lo, hi := x.P1, x.P2
+	if !x.LoEq {
+		lo++
+	}
+	if !x.HiEq {
+		hi--
+	}
+	return lo > hi
+}
+
 var errMQuery = fmt.Errorf("model: query must fail")
 
 func mIntSat(op string, v, p1, p2 int64, loEq, hiEq bool) bool {
